@@ -5,6 +5,7 @@ import (
 	"fmt"
 	"net"
 	"regexp"
+	"runtime"
 	"runtime/debug"
 	"strings"
 	"time"
@@ -112,6 +113,7 @@ func bufconnMain(shard, n int) *wres {
 	fn := full[1] // N1 is the syncing node
 	ver := &countVerifier{inner: world.SharedVerifier}
 
+	dl := deadline()
 	type outcome struct {
 		err error
 		pan *panicRec
@@ -119,6 +121,10 @@ func bufconnMain(shard, n int) *wres {
 	for si, sh := range shapes {
 		if si%n != shard {
 			continue
+		}
+		if expired(dl) {
+			res.Truncated = true
+			break
 		}
 		g := sch.getter(sh)
 		for _, cons := range []bool{false, true} {
@@ -168,11 +174,14 @@ func bufconnMain(shard, n int) *wres {
 			}
 			cancel()
 			st.Shapes++
+			if st.Shapes%1000 == 0 {
+				runtime.GC()
+			}
 			ws := witnessOf(d, "fresh node syncing from a peer that streams S1 + this vertex", sh, variant, nil)
 			switch {
 			case hung != "":
 				st.Panics++
-				res.addViol(&vrec{Key: "C15.blocked/" + updName, Predicate: "C15.returns", Dev: sh.dev, Idx: si, Count: 1, What: hung, Witness: ws})
+				res.addViol(&vrec{Key: "C15.blocked/" + updName, Predicate: "C15.returns", Dev: int(sh.dev), Idx: si, Count: 1, What: hung, Witness: ws})
 				res.WallS = time.Since(start).Seconds()
 				return res // the node is wedged; nothing more can be decided in this process
 			case o.pan != nil || lp != nil:
@@ -182,7 +191,7 @@ func bufconnMain(shard, n int) *wres {
 				}
 				st.Panics++
 				ws["panic"], ws["frames"] = p.value, p.frames
-				res.addViol(&vrec{Key: fmt.Sprintf("C15.panic/%s/%s@%s", updName, p.class, p.frame), Predicate: "C15.no-panic", Dev: sh.dev, Idx: si, Count: 1,
+				res.addViol(&vrec{Key: fmt.Sprintf("C15.panic/%s/%s@%s", updName, p.class, p.frame), Predicate: "C15.no-panic", Dev: int(sh.dev), Idx: si, Count: 1,
 					What: fmt.Sprintf("updateDag panicked (%s) in %s on a %s vertex streamed by the peer", p.value, p.frame, variant), Witness: ws})
 				res.sample(d, "sync", sh, variant, "PANIC "+p.class+" in "+p.frame)
 			case o.err != nil:
